@@ -70,18 +70,29 @@ def check_counter_method(out, facts, fn, kind):
             e = p[i]
             good_pos = i > fw[0] and not any(j < i for j in errs)
             val = strip(e[2])
-            good_val = (isinstance(val, tuple) and val[0] == 'call' and val[1] == 'saturating_add' and e[3] is None and
-                        is_self_field(val[3][0], 'counter'))
-            inc = strip(val[3][1]) if good_val else None
+            # the new value is min(counter + n, u64::MAX) with n = 1 / into.len(), however it is computed (saturating_add,
+            # checked_add with a saturating fallback, conversions of the length with a saturating fallback): by evaluation
+            good_val = e[3] is None
             if good_val:
-                if kind == 'read_byte':
-                    good_val = isinstance(inc, tuple) and inc[0] == 'lit' and inc[1] == 1
-                else:
-                    # n = into.len() converted to u64 with a saturating fallback
-                    has_len = contains(inc, lambda x: isinstance(x, tuple) and x[0] == 'call' and x[1] == 'len' and
-                                       strip(x[3][0])[:2] == ('param', 'into'))
-                    only = _only_conversions(inc)
-                    good_val = has_len and only
+                M64 = 2 ** 64 - 1
+                for c_, n_ in ((0, 0), (0, 1), (5, 3), (M64 - 1, 1), (M64 - 1, 2), (M64, 1), (M64, M64), (1, M64), (7, 2 ** 40)):
+                    if kind == 'read_byte' and n_ != 1:
+                        continue
+
+                    def leafc(x, c_=c_, n_=n_):
+                        if is_self_field(x, 'counter'):
+                            return c_
+                        x = strip(x)
+                        if isinstance(x, tuple) and len(x) > 3 and x[0] == 'call' and x[1] == 'len' and x[3] and strip(x[3][0])[:2] == ('param', 'into'):
+                            return n_
+                        return None
+                    try:
+                        got = eval_expr(val, leafc)
+                    except ArithPanic:
+                        got = None
+                    if got != min(c_ + n_, M64):
+                        good_val = False
+                        break
             out.ob('R19.1', key + '/update', good_pos and good_val,
                    'counter update `%s` is not `counter.saturating_add(%s)` on the success continuation of the forwarded call'
                    % (sym.tstr(e), 'into.len()' if kind == 'read' else '1'), loc,
@@ -166,7 +177,17 @@ def run(cx, out):
             if f['kind'] not in ('AssocFn', 'Closure'):
                 continue
             if _writes_field(f['thir'], 'counter', facts):
-                writers.add(f.get('method'))
+                nm = f.get('method') or f['path'].split('::')[-1]
+                # a private helper of the counting methods (used by nothing else) writes on their behalf: the per-method
+                # rules above see its body inlined
+                if f['kind'] == 'AssocFn' and not f.get('trait') and f.get('vis') not in ('Public', None):
+                    refs_ = referrers(facts).get(f['path'], set())
+                    callers = [facts.by_path.get(r) for r in refs_]
+                    if callers and all(g is not None and 'CountedInput' in (g.get('self') or '') and
+                                       (g.get('method') in ('read', 'read_byte') or (g.get('parent') and facts.by_path.get(g['parent'], {}).get('method') in ('read', 'read_byte')))
+                                       for g in callers):
+                        continue
+                writers.add(nm)
         out.ob('R19.1', 'CountedInput.counter/writers[%s]' % cfg, writers <= {'read', 'read_byte'},
                'the counter is written by %s (only read and read_byte may)' % sorted(writers), '-')
         # new() starts at 0 and count() returns the field
